@@ -138,6 +138,8 @@ type zStep struct {
 	J     int    `json:"j,omitempty"`     // slice high (-1 = omitted)
 	Spell string `json:"spell,omitempty"` // dot | bracket
 	Arg   int    `json:"arg,omitempty"`   // method argument (Add)
+	Var   string `json:"var,omitempty"`   // index / key written as this variable instead of a literal
+	Undef bool   `json:"undef,omitempty"` // ... which is not defined
 }
 
 type zStatus int
@@ -164,6 +166,9 @@ func zResolve(root interface{}, steps []zStep) (val reflect.Value, st zStatus, w
 	for _, s := range steps {
 		if !v.IsValid() {
 			return v, zErr, "step on nil"
+		}
+		if s.Undef {
+			return v, zErr, "undefined index variable"
 		}
 		switch s.Kind {
 		case "method":
@@ -398,7 +403,11 @@ func zPathString(base string, steps []zStep) string {
 				s += "." + st.Name + "(" + arg + ")"
 			}
 		case "index", "key":
-			s += "[" + strconv.Itoa(st.I) + "]"
+			if st.Var != "" {
+				s += "[" + st.Var + "]"
+			} else {
+				s += "[" + strconv.Itoa(st.I) + "]"
+			}
 		case "slice":
 			hi := ""
 			if st.J >= 0 {
